@@ -78,6 +78,9 @@ UNKNOWN = [
     ent("other", [kid("other")]),
     ent('variant_identifier', [kid("variant_identifier")]),
     ent('serialize_with = "path"', [kid("serialize_with"), "KEq", kstr("path")]),
+    # keys that look like `skip` and are not: serde still writes a `skip_deserializing` field
+    ent("skip_deserializing", [kid("skip_deserializing")]),
+    ent("skip_serializing", [kid("skip_serializing")]),
     # keys followed by a parenthesised list
     ent('bound(serialize = "T: Clone")', [kid("bound"), "KGroup [%s; KEq; %s]" % (kid("serialize"), kstr("T: Clone"))]),
     ent('made_up(a = "b", c)', [kid("made_up"), "KGroup [%s; KEq; %s; KComma; %s]" % (kid("a"), kstr("b"), kid("c"))]),
@@ -281,7 +284,9 @@ def run(ctx):
                     mx2 = add(pos, [(False, [es[0]], False), (True, [es[1]], False)], "split, second as ts")
                     pairs.append((ref, mx1, "`%s` (ts) and `%s` (serde) in two attributes at %s" % (es[0][0], es[1][0], pos)))
                     pairs.append((ref, mx2, "`%s` (serde) and `%s` (ts) in two attributes at %s" % (es[0][0], es[1][0], pos)))
-            for u in (unknown_here if not ctx.quick else rng.sample(unknown_here, min(5, len(unknown_here)))):
+            # (quick: a sample, plus always the keys that extend a known key: `skip_serializing`, `skip_deserializing`, ..)
+            near = [u for u in unknown_here if any(u[0].split(" ")[0].split("(")[0].startswith(k + "_") for k in sd_t)]
+            for u in (unknown_here if not ctx.quick else near + [u for u in rng.sample(unknown_here, min(5, len(unknown_here))) if u not in near]):
                 for i in range(len(es) + 1):
                     a = add(pos, [(False, es[:i] + [u] + es[i:], False)], "unknown inserted")
                     pairs.append((ref, a, "unsupported serde attribute `%s` at index %d of a list at %s" % (u[0], i, pos)))
